@@ -371,6 +371,13 @@ type modItem struct {
 	idx   Term
 	key   *Term
 	whole bool
+	// element range of a slice: cells ea(rngArr, i) with rngLo <= i < rngHi
+	rngArr, rngLo, rngHi *Term
+}
+
+// inRange: p is one of the cells described by a range item.
+func (it modItem) inRange(p string) string {
+	return fmt.Sprintf("(and (= (ea_base %s) %s) (= %s (ea (ea_base %s) (ea_idx %s))) (<= %s (ea_idx %s)) (< (ea_idx %s) %s))", p, it.rngArr.S, p, p, p, it.rngLo.S, p, p, it.rngHi.S)
 }
 
 func (u *Unit) applyContract(fr *frame, st *State, callee *ssa.Function, c *Contract, params map[string]Value, resT types.Type, pos token.Pos, name string) Value {
@@ -413,6 +420,11 @@ func (u *Unit) applyContract(fr *frame, st *State, callee *ssa.Function, c *Cont
 		if c.Fresh && scalarSort(resT) == SInt {
 			r := u.newObject(st)
 			res = Sc{r, resT}
+		} else if sl, isSl := resT.Underlying().(*types.Slice); isSl && c.Fresh {
+			r := u.newObject(st)
+			ln := u.ctx.Fresh("res_len", SInt)
+			u.ctx.Assert(Cmp(">=", ln, TZero), "slice-wf")
+			res = SliceV{r, TZero, ln, sl.Elem()}
 		} else {
 			res = u.freshValue(resT, "res_"+sanitize(name))
 		}
@@ -459,6 +471,12 @@ func bindResults(vars map[string]Value, callee *ssa.Function, rvals []Value) {
 func (u *Unit) havocItem(st *State, it modItem) {
 	arr := u.heapGet(st, it.fam, it.sort)
 	switch {
+	case it.rngArr != nil:
+		nh := u.ctx.Fresh("H", it.sort)
+		u.assume(st, Term{fmt.Sprintf("(forall ((p Int)) (! (=> (not %s) (= (select %s p) (select %s p))) :pattern ((select %s p))))", it.inRange("p"), nh.S, arr.S, nh.S), SBool}, "slice-elements-havoc")
+		st.Heap[it.fam] = nh
+		u.famSort[it.fam] = it.sort
+		u.written[it.fam] = true
 	case it.whole:
 		st.Heap[it.fam] = u.ctx.Fresh("H", it.sort)
 		u.famSort[it.fam] = it.sort
@@ -750,7 +768,7 @@ func (u *Unit) runDefers(fr *frame, st *State) {
 func (u *Unit) scanCallWrites(fr *frame, call *ssa.CallCommon, instr ssa.Value, ws *writeSet, inLoop func(ssa.Value) bool, depth int) {
 	if call.IsInvoke() {
 		if c := u.w.ifaceContract(call.Value.Type(), call.Method.Name()); c != nil {
-			u.scanContractWrites(c, ws)
+			u.scanContractWrites(c, ws, call.Signature(), call.Value.Type())
 			return
 		}
 		if n, ok := call.Value.Type().(*types.Named); ok && n.Obj().Pkg() != nil && isNoopCallee(n.Obj().Pkg().Path(), call.Method.Name()) {
@@ -800,7 +818,7 @@ func (u *Unit) scanCallWrites(fr *frame, call *ssa.CallCommon, instr ssa.Value, 
 		return
 	}
 	if c := u.w.funcFieldContract(call.Value); c != nil {
-		u.scanContractWrites(c, ws)
+		u.scanContractWrites(c, ws, call.Signature(), nil)
 		return
 	}
 	ws.all, ws.why = true, "call through function value"
@@ -825,7 +843,7 @@ func (u *Unit) scanFuncWrites(fr *frame, callee *ssa.Function, ws *writeSet, dep
 	}
 	c := u.w.contractFor(callee)
 	if c != nil && !c.Inline {
-		u.scanContractWrites(c, ws)
+		u.scanContractWrites(c, ws, callee.Signature, nil)
 		return
 	}
 	if callee.Name() == "DeepCopy" {
@@ -854,7 +872,7 @@ func (u *Unit) scanFuncWrites(fr *frame, callee *ssa.Function, ws *writeSet, dep
 	ws.all, ws.why = true, "call to "+shortFuncName(callee)
 }
 
-func (u *Unit) scanContractWrites(c *Contract, ws *writeSet) {
+func (u *Unit) scanContractWrites(c *Contract, ws *writeSet, sig *types.Signature, recvT types.Type) {
 	if c.ModAll {
 		ws.all, ws.why = true, "contract modifies *"
 		return
@@ -865,7 +883,7 @@ func (u *Unit) scanContractWrites(c *Contract, ws *writeSet) {
 	if len(c.Modifies) > 0 {
 		pk := u.w.pkgOfContract(c)
 		for _, m := range c.Modifies {
-			fams, ok := u.w.staticModFams(u, pk, c, m.Expr)
+			fams, ok := u.w.staticModFams(u, pk, c, m.Expr, sig, recvT)
 			if !ok {
 				ws.all, ws.why = true, "modifies clause not statically resolvable: "+m.Text
 				return
